@@ -228,10 +228,94 @@ def evaluate(case) -> Result:
         w.close()
 
 
+def install_points():
+    from dv import sched, simkernel as sk
+    mods = sk.load_node()
+    N, P = mods["node"].Node, mods["peer"].PeerConnection
+    sched.clear()
+    return sched.install({P.reset_last_dwr: None, P.reset_last_dwa: None, N.send_dwr: r"send_message|reset_last_dwr",
+                          N.receive_dwa: None, N._check_timers: r"send_dwr|PEER_READY_STATES"})
+
+
+def stray_dwa_vs_watchdog(decisions):
+    """A DWA (a late or stray one) arrives in the I/O-loop turn in which the idle timer sends the node's DWR.  One
+    schedule: afterwards the watchdog still works - with a silent peer the connection is closed with the
+    watchdog-timeout reason within dwa timeout + wakeup + 1 seconds of the DWR."""
+    from dv import sched
+    w = W.NodeWorld({"peers": [{"name": "peer1.example", "ip": ["10.1.1.1"]}],
+                     "apps": [{"app_id": 4, "auth": True, "peers": [0], "handler": "answer"}],
+                     "node_timers": {"idle": 2, "dwa": 3, "cer": 30, "cea": 30, "wakeup": 1}})
+    try:
+        w.start()
+        c = w.handshake_in("peer1.example", auth=[4], ip="10.1.1.1", hbh=0x100)
+        t0 = w.k.now
+        io = [t for t in w.k.threads if "_handle_connections" in t.name][0]
+        while io.deadline is not None and int(io.deadline) - int(t0) <= 2:
+            w.k.advance(io.deadline - w.k.now)
+        if [f for f in c.refresh() if f.is_request and f.code == W.CMD_DW]:
+            return [], [("setup", "the DWR went out before the turn under exploration")]
+        due = io.deadline
+        ex = sched.Explorer(decisions)
+        sched.attach(w.k, ex)
+
+        def feeder():
+            w.k.block(lambda: False, timeout=50)
+            w.feed_msg(c, {"k": "DWA", "host": "peer1.example", "hbh": 0x181, "e2e": 0x181}, run=False)
+        w.k.spawn(feeder, name="feeder")
+        w.k.run()
+        [t for t in w.k.threads if t.name == "feeder"][0].deadline = due
+        ex.armed = True
+        w.k.advance(due - w.k.now)
+        ex.armed = False
+        w.k.run()
+        problems = []
+        dwrs = [f for f in c.refresh() if f.is_request and f.code == W.CMD_DW]
+        # the peer is silent from now on: the stray DWA does not answer the node's DWR (other identifiers)
+        w.advance(3 + 1 + 1 + 2 + 3)
+        dwrs2 = [f for f in c.refresh() if f.is_request and f.code == W.CMD_DW]
+        if not dwrs2:
+            problems.append(("no-dwr", "no watchdog request within 9 s although the peer has been silent since its (stray) DWA; idle timeout 2 s"))
+        elif not c.node_closed:
+            problems.append(("silent-peer-not-closed", f"DWR at +{dwrs2[0].t - t0:g}s, no DWA for it, yet the connection is still open "
+                             f"{w.k.now - dwrs2[0].t:g}s later (dwa timeout 3 s, wakeup 1 s)"))
+        for sig, d in W.monitor_threads(w):
+            problems.append((f"thread-died/{sig}", d))
+        return ex.trace, problems, len(dwrs)
+    finally:
+        w.close()
+
+
+def schedule_part(rec, shard, nshards, thorough):
+    from dv import sched
+    from dv.common import fp
+    info = install_points()
+    if shard == 0:
+        rec.extra["preemption_functions"] = info
+    holder = {}
+
+    def run_one(dec):
+        out = stray_dwa_vs_watchdog(dec)
+        holder["last"] = out[1]
+        holder["dwrs"] = out[2] if len(out) > 2 else 0
+        return out[0]
+    n = 0
+    for dec, trace in sched.enumerate_schedules(run_one, 4 if thorough else 3, shard, nshards):
+        case = {"stray_dwa_vs_watchdog": True, "schedule": {str(i): c for i, c in sorted(dec.items())}}
+        for kind, detail in holder["last"]:
+            rec.violation(f"C11/stray-dwa-vs-watchdog/{kind}", case, detail)
+        n += 1
+        rec.case(fp("sched", tuple(sorted(dec.items()))) if dec else None,
+                 ["schedule-exploration", f"stray-dwa:dwr-in-turn:{holder['dwrs']}", f"deviations:{len(dec)}"],
+                 sample=lambda: dict(case, choice_points=len(trace)))
+    rec.extra["stray_dwa_schedules"] = rec.extra.get("stray_dwa_schedules", 0) + n
+    sched.clear()
+
+
 def shard_main(shard, nshards, tier, scale):
     rec = Recorder(PID)
     thorough = tier == "thorough"
     shrunk = set()
+    schedule_part(rec, shard, nshards, thorough)
     n = int((10000 if thorough else 800) * scale)
 
     @st.composite
@@ -289,11 +373,21 @@ def run(tier, scale=1.0):
     rec = Recorder(PID)
     for d in hyp.pool_run(shard_main, (tier, scale)):
         rec.merge(d)
-    required = {"prelude:dpr": 1, "prelude:close": 1, "dwa-result:3004": 1, "dwa-result:none": 1, "identity:respelled": 1, "fragment": 1, "tx-blocked": 1, "dir:in": 1, "dir:out": 1, "episodes:2": 1, "closed-by-watchdog": 1, "peer-idle:True": 1,
+    required = {"schedule-exploration": 1, "stray-dwa:dwr-in-turn:1": 1, "prelude:dpr": 1, "prelude:close": 1, "dwa-result:3004": 1, "dwa-result:none": 1, "identity:respelled": 1, "fragment": 1, "tx-blocked": 1, "dir:in": 1, "dir:out": 1, "episodes:2": 1, "closed-by-watchdog": 1, "peer-idle:True": 1,
                 "peer-dwa:True": 1, "outcomes:2": 1}
     return finish(rec, tier=tier, level="exploration", rule=RULE, assumptions=ASSUME, t0=t0,
                   required_classes=required)
 
 
 def replay(doc):
+    if doc["case"].get("stray_dwa_vs_watchdog"):
+        install_points()
+        problems = stray_dwa_vs_watchdog({int(i): c for i, c in doc["case"]["schedule"].items()})[1]
+        sigs = [f"C11/stray-dwa-vs-watchdog/{k}" for k, _ in problems]
+        if doc["signature"] in sigs:
+            print(f"  replayed: {problems[0][1][:300]}")
+            print(f"VIOLATION property={PID} replay=(replay)")
+            return 1
+        print(f"[{PID}] replay: signature {doc['signature']} does not reproduce (got {sigs})")
+        return 0
     return generic_replay(PID, evaluate, doc)
